@@ -298,3 +298,35 @@ func H_C16_strlit() {
 	VAssert(string(got) == string(want), "strlit: denotes exactly the bytes llex.c reads")
 	VReach("end")
 }
+
+
+var c16Pool = []string{"0", "00", "007", "0017", "00017", "010", "0.50", "00.5", "1e2", "1E+2", "1e-2", "0e0", "12.", ".5", "5.e1", "0x10", "0XfF", "0x0a", " 12 ", "\t7\n", "1.5e3", "123456789", "1e10", "3.25", "100", "0.125"}
+
+// C16.pool — longer numeral spellings: the lexer, tonumber and coercion agree with R-num.
+//
+//verif:harness prop=C16 tier=quick bounds="26 concrete numeral spellings (leading zeros, fraction/exponent forms, hexadecimal, surrounding blanks); readers compared pairwise and with R-num"
+func H_C16_pool() {
+	s := c16Pool[VChoice(len(c16Pool))]
+	ok, val, cat := refNumeral(s)
+	VAssert(ok, "pool: R-num accepts the spelling "+s)
+	L := newL(Options{}, BaseLibName)
+	out, err := callLib(L, "_G", "tonumber", 1, LString(s))
+	VAssert(err == nil, "pool: tonumber does not raise")
+	known := cat == "exponent without a dot" || cat == "integer with leading zero" || cat == "leading zero, fraction or exponent"
+	if !known {
+		VAssert(sameValue(out[0], LNumber(val)), "pool: tonumber value of "+s)
+		pn, perr := parseNumber(s)
+		VAssert(perr == nil && VEqF(float64(pn), val), "pool: coercion value of "+s)
+	}
+	trimmed := true
+	for i := 0; i < len(s); i++ {
+		if isBlank(s[i]) {
+			trimmed = false
+		}
+	}
+	if trimmed {
+		VAssert(loadRun(L, "return "+s, 1) == nil, "pool: literal loads: "+s)
+		VAssert(sameValue(L.Get(-1), LNumber(val)), "pool: literal value of "+s)
+	}
+	VReach("end")
+}
